@@ -39,6 +39,8 @@ def run(ck):
     r5_copy(ck, w)
     r6_backends(ck, w)
     r7_cycle_walk(ck, w)
+    from . import c10
+    c10.eval_ops(ck, w, 'C02', 'C02.N1')
 
 
 def r6_backends(ck, w):
